@@ -110,6 +110,15 @@ def parse(lines):
             ops[-1][1].append((int(r), int(alt or r), parse_acts(t[2:])))
         else:
             raise ValueError(f'bad scenario line {ln!r}')
+    # every handle an operation names is a declared one (a shrunk scenario that lost a declaration is
+    # not a scenario)
+    named = [op[1] for op in ops if op[0] in ('load', 'switch')]
+    for acts in [a for op in ops if op[0] == 'start' for _, _, a in op[1]] + \
+            [parse_acts(r) for r in reacts.values()]:
+        named += [int(a[1]) for a in acts if a and a[0] in ('switch', 'rswitch', 'lswitch', 'load')
+                  and len(a) > 1 and a[1].isdigit()]
+    if any(k >= len(handles) for k in named):
+        raise ValueError('operation on an undeclared handle')
     return handles, reacts, ops
 
 
